@@ -17,6 +17,8 @@ FixRe(r) ==
 FixAct(act) ==
   IF act.op = "setfs"
   THEN [act EXCEPT !.fsv = IF act.fsv.k = "re" THEN FsRe(FixRe(act.fsv.r)) ELSE act.fsv]
+  ELSE IF act.op = "subf"
+  THEN [act EXCEPT !.re = FixRe(act.re)]
   ELSE act
 
 VARIABLES rec, l
@@ -39,6 +41,7 @@ TStep ==
   /\ LET ev == Log[l]
          act == FixAct(ev.act)
      IN /\ (act.op = "setfs" => Assert(FsText(act.fsv) = ev.act.text, "harness FS menu is inconsistent with its regex AST"))
+        /\ (act.op = "subf" => Assert(Render(act.re) = ev.act.text, "harness regex menu is inconsistent with its regex AST"))
         /\ IF Explains(ev, act)
            THEN /\ rec' = Apply(rec, act)
                 /\ l' = l + 1
